@@ -10,7 +10,7 @@ from . import builtin, regenerate
 from .. import path as _path
 from ..exceptions import SerializationError
 from ..glob import NameGlob, PathGlob
-from ..iterutils import iterate, listify
+from ..iterutils import iterate, listify, uniques
 from ..backends.make import writer as make
 from ..backends.ninja import writer as ninja
 from ..backends.make.syntax import Writer, Syntax
@@ -352,6 +352,7 @@ def find_check_cache(context):
     # Otherwise, check to see if any of the `find_files` calls have different
     # results. If not, we can avoid regenerating.
     regenerate = False
+    all_seen_dirs = []
 
     for file_filter, results in old_cache.items():
         found, extra, seen_dirs = [], [], []
@@ -362,14 +363,33 @@ def find_check_cache(context):
                 extra.append(path)
 
         regenerate = regenerate or results[0] != found or results[1] != extra
+        all_seen_dirs.extend(seen_dirs)
 
     if not regenerate:
-        # We don't want to regenerate. To make sure the build backend is happy,
-        # update the modification time of all the output files.
+        # We don't want to regenerate. However, the set of directories we need
+        # to watch may have changed (e.g. an empty directory was added or
+        # removed), so refresh the depfile listing them.
+        _refresh_depfile(context.env, regen_files, all_seen_dirs)
+
+        # To make sure the build backend is happy, update the modification
+        # time of all the output files.
         for i in regen_files.outputs:
             if _path.exists(i, context.env.base_dirs):
                 _path.touch(i, context.env.base_dirs)
         raise AbortConfigure()
+
+
+def _refresh_depfile(env, regen_files, seen_dirs):
+    depfile = Path(depfile_name)
+    if not _path.exists(depfile, env.base_dirs):
+        return
+
+    seen_dirs = uniques(seen_dirs)
+    if env.backend == 'make':
+        write_depfile(env, depfile, _make_depfile_target(regen_files.outputs),
+                      seen_dirs, makeify=True)
+    else:
+        write_depfile(env, depfile, regen_files.outputs[0], seen_dirs)
 
 
 def _make_depfile_target(outputs):
